@@ -364,6 +364,15 @@ U("dfcc_loop_cfg_indent", harness="harness/dfcc.c", entry="h_dfcc_indent", func=
   label="proof (function contract + loop contract (invariant, frame, variant) enforced by goto-instrument --dfcc --apply-loop-contracts; EVERY depth 0 .. 2^29, quantifier-free, SAT back end; the stream is a ghost counter fed by an fprintf carrier that checks stream and format)",
   props=["C19", "C05", "C02"], cost=10)
 
+U("dfcc_loop_cfg_getopt_leaf", harness="harness/dfcc.c", entry="h_dfcc_leaf", func="cfg_getopt_leaf", style="S1", defs={"quick": ["-DCFGV_DFCC_LEAF"]}, cbmc=NOOOM, backend="z3",
+  dfcc={"enforce": ["cfg_getopt_leaf"], "loops": True}, expect_canary=False, no_slice=False, require_obligations=[r"loop_invariant_step", r"loop_decreases", r"postcondition"],
+  label="proof (function contract + loop contract enforced by goto-instrument --dfcc --apply-loop-contracts; option arrays of every length up to 1024; string equality abstract: arbitrary verdict per entry, supplied by strcmp / strcasecmp carriers that check their arguments; SMT back end z3)",
+  props=["C01", "C11", "C12", "C02"], cost=30)
+U("dfcc_loop_cfg_getopt_leaf_twin", harness="harness/dfcc.c", entry="h_dfcc_leaf", func="cfg_getopt_leaf", style="S1", defs={"quick": ["-DCFGV_DFCC_LEAF", "-DCFGV_TWIN"]}, cbmc=NOOOM,
+  dfcc={"enforce": ["cfg_getopt_leaf"], "loops": True}, expect_canary=False, no_slice=False, require_obligations=[r"loop_invariant_step", r"loop_decreases", r"postcondition"],
+  label="bounded(quantifier-free twin of dfcc_loop_cfg_getopt_leaf: option arrays of at most 3 entries; SAT back end, yields counterexamples)",
+  props=["C01", "C11", "C12", "C02"], cost=5)
+
 U("dfcc_modular_cfg_num", harness="harness/dfcc.c", entry="h_dfcc_num", func="cfg_num", style="S1", defs={"quick": []}, cbmc=NOOOM, backend="z3",
   dfcc={"enforce": ["cfg_num"], "replace": ["cfg_numopts"]}, expect_canary=False, no_slice=False, require_obligations=[r"postcondition", r"precondition"],
   label="proof (contract of cfg_num enforced with the call to cfg_numopts replaced by contract::cfg_numopts: caller checked against the callee's contract, not its body; option arrays up to 1024; z3)",
